@@ -217,3 +217,64 @@ func HarnessLateRead() {
 	verif.Assert(string(h.gotB) == string(pb), "other-call-sees-exactly-its-own-bytes")
 	verif.Reach("late-read-done")
 }
+
+type TH struct {
+	gotA, gotB []byte
+}
+
+func (h *TH) One(ctx context.Context, r io.Reader) (int, error) {
+	b, err := io.ReadAll(r)
+	h.gotA = b
+	return len(b), err
+}
+func (h *TH) Other(ctx context.Context, r io.Reader) (int, error) {
+	b, err := io.ReadAll(r)
+	h.gotB = b
+	return len(b), err
+}
+func (h *TH) Cat(ctx context.Context, a, b io.Reader) (int, error) {
+	x, err := io.ReadAll(a)
+	if err != nil {
+		return 0, err
+	}
+	y, err := io.ReadAll(b)
+	h.gotA, h.gotB = x, y
+	return len(x) + len(y), err
+}
+
+type TC struct {
+	One   func(ctx context.Context, r io.Reader) (int, error)
+	Other func(ctx context.Context, r io.Reader) (int, error)
+	Cat   func(ctx context.Context, a, b io.Reader) (int, error)
+}
+
+// HarnessSameClient: two reader parameters travelling through ONE client (two
+// concurrent calls, or one call with two readers) reach the right handler
+// parameter byte-exactly; nothing hangs.
+func HarnessSameClient() {
+	h := &TH{}
+	upload, dec := httpio.ReaderParamDecoder()
+	srv := jsonrpc.NewServer(dec)
+	srv.Register("R", h)
+	base := verif.MountHTTP(upload)
+	var c TC
+	closer, err := jsonrpc.NewMergeClient(context.Background(), "http://server/rpc", "R", []interface{}{&c}, nil,
+		jsonrpc.WithHTTPClient(hx.HTTPClient(srv)), httpio.ReaderParamEncoder(base+"/upload"))
+	verif.Assert(err == nil, "client-created")
+	defer closer()
+	p1 := verif.Bytes("p1", 2)
+	p2 := verif.Bytes("p2", 2)
+	done := 0
+	var e1, e2 error
+	if verif.Bool("two_readers_one_call") {
+		go func() { _, e1 = c.Cat(context.Background(), bytes.NewReader(p1), bytes.NewReader(p2)); done += 2 }()
+	} else {
+		go func() { _, e1 = c.One(context.Background(), bytes.NewReader(p1)); done++ }()
+		go func() { _, e2 = c.Other(context.Background(), bytes.NewReader(p2)); done++ }()
+	}
+	verif.Quiesce()
+	verif.Assert(done == 2 && e1 == nil && e2 == nil, "calls-return")
+	verif.Assert(string(h.gotA) == string(p1), "first-reader-own-bytes")
+	verif.Assert(string(h.gotB) == string(p2), "second-reader-own-bytes")
+	verif.Reach("same-client-done")
+}
